@@ -96,7 +96,8 @@ enum FailClass : int {
   F_MISSING = 3,    // global or function without a value   (real: globalMissingValue / unknownError)
   F_OVERFLOW = 4,   // integer result outside int32         (real: signed overflow, a known defect)
   F_INTSET = 5,     // Z has no finite value                (real: ValueEID::iterateInfinity)
-  F_MALFORMED = 6,  // tree is not a well-typed expression  (real: unknownError or undefined)
+  F_MALFORMED = 6,  // tree is not a well-typed expression, or operands of = ∈ ⊆ ∪.. {..} met at run time
+                    // cannot be of one type (SameShape)      (real: unknownError or garbage)
   F_DEPTH = 7       // R{..} builds ever deeper nested values, e.g. R{a:=∅ | {a}}, which the real
                     // auditor accepts although the type of `a` never stabilises: inconclusive
 };
@@ -437,6 +438,7 @@ private:
       if (a.k == EvalResult::FAIL) return a;
       R b = EvVal(it.Child(1), fr);
       if (b.k == EvalResult::FAIL) return b;
+      if (!SameShape(a.v, b.v)) return Fail(F_MALFORMED);
       return Logic(Equal(a.v, b.v) == (it->id == TokenID::EQUAL));
     }
 
@@ -485,6 +487,7 @@ private:
       if (a.k == EvalResult::FAIL) return a;
       R s = EvSet(it.Child(1), fr);
       if (s.k == EvalResult::FAIL) return s;
+      if (!SameShape(Singleton(a.v), s.v)) return Fail(F_MALFORMED);
       return Logic(Contains(s.v, a.v) == (it->id == TokenID::IN));
     }
     case TokenID::SUBSET:
@@ -495,6 +498,7 @@ private:
       if (a.k == EvalResult::FAIL) return a;
       R b = EvSet(it.Child(1), fr);
       if (b.k == EvalResult::FAIL) return b;
+      if (!SameShape(a.v, b.v)) return Fail(F_MALFORMED);
       const bool subsetEq = IsSubsetOrEq(a.v, b.v);
       const bool proper = subsetEq && !Equal(a.v, b.v);
       if (it->id == TokenID::SUBSET_OR_EQ) return Logic(subsetEq);
@@ -510,6 +514,7 @@ private:
       if (a.k == EvalResult::FAIL) return a;
       R b = EvSet(it.Child(1), fr);
       if (b.k == EvalResult::FAIL) return b;
+      if (!SameShape(a.v, b.v)) return Fail(F_MALFORMED);
       switch (it->id) {
       default:
       case TokenID::UNION: return Val(Union(a.v, b.v));
@@ -545,7 +550,10 @@ private:
         if (c.k == EvalResult::FAIL) return c;
         parts.push_back(std::move(c.v));
       }
-      return Val(it->id == TokenID::NT_TUPLE ? MakeTuple(std::move(parts)) : MakeSet(std::move(parts)));
+      if (it->id == TokenID::NT_TUPLE) return Val(MakeTuple(std::move(parts)));
+      Value result = MakeSet(std::move(parts));
+      if (!SameShape(result, result)) return Fail(F_MALFORMED);
+      return Val(std::move(result));
     }
     case TokenID::BOOL: {
       if (n != 1) return Fail(F_MALFORMED);
